@@ -119,25 +119,26 @@ Definition c_fetch (cfg : c_cfg) (now : Z) (futs : list c_fut) (f : nat) : nat :
 Definition c_is_good (st : c_st) : bool := match st with CGood => true | _ => false end.
 
 (* ---- Load *)
+(* next = newFuture(predecessor); futures.d[key] = next; sendJob(next) *)
+Definition c_new_job (s : c_state) (k : Z) (pred : option nat) : c_state :=
+  {| c_now := c_now s;
+     c_futs := c_futs s ++ [{| c_fkey := k; c_fdone := None; c_fpred := pred |}];
+     c_map := c_update (c_map s) k (length (c_futs s));
+     c_queue := c_queue s ++ [length (c_futs s)];
+     c_running := c_running s;
+     c_displaced := c_displaced s |}.
+
 Definition c_load (cfg : c_cfg) (s : c_state) (k : Z) : c_state * c_out :=
   let last := c_lookup (c_map s) k in
-  let st := c_status cfg (c_now s) (c_futs s) last in
-  match st with
-  | CGood =>
+  match c_status cfg (c_now s) (c_futs s) last with
+  | CGood =>       (* no next; return fetchIfFutureStatusGood(last) *)
       (s, OLoad (match last with Some l => c_fetch cfg (c_now s) (c_futs s) l | None => O end) false)
-  | _ =>
-      let pred := match st with CExpired => last | _ => None end in
-      let next := length (c_futs s) in
-      let s' := {| c_now := c_now s;
-                   c_futs := c_futs s ++ [{| c_fkey := k; c_fdone := None; c_fpred := pred |}];
-                   c_map := c_update (c_map s) k next;
-                   c_queue := c_queue s ++ [next];
-                   c_running := c_running s;
-                   c_displaced := c_displaced s |} in
-      match st with
-      | CExpired => (s', OLoad (match last with Some l => l | None => next end) true)
-      | _ => (s', OLoad next true)
-      end
+  | CExpired =>    (* predecessor = last; return last *)
+      (c_new_job s k last, OLoad (match last with Some l => l | None => length (c_futs s) end) true)
+  | CRotted =>     (* predecessor = nil; return next *)
+      (c_new_job s k None, OLoad (length (c_futs s)) true)
+  | CEmpty =>      (* predecessor = nil; return next *)
+      (c_new_job s k None, OLoad (length (c_futs s)) true)
   end.
 
 (* ---- Get2 *)
